@@ -117,6 +117,25 @@ def generate(thorough):
                     goals = " goal a = new U(); goal c = new V(%s);" % ("" if kx is None else "x: %d.0" % kx)
                     dj = " { n == 0.0; }%s or { n == 1.0; }%s" % (("", "") if costs is None else (" [%d.0]" % costs[0], " [%d.0]" % costs[1]))
                     add(lt + (goals + dj if first == 0 else dj + goals), {}, [("goal", "a", "U", {}), ("goal", "c", "V", {} if kx is None else {"x": lit(kx)})])
+    # alternatives: every goal's rule is a disjunction of alternatives, each either a sub-goal V(x: c), whose rule pins a
+    # global variable (x == n), or a dead end (a sub-goal whose rule is `false`); EVERY assignment of {0, 1, dead} to the
+    # alternatives of two goals (thorough: three).  The ground truth is by enumeration: solvable iff the goals can pick
+    # live alternatives that agree on n.  Solutions beyond the first causal graph and dead ends among the waiting flaws
+    # both occur.
+    opts = (0, 1, None)
+    for ng in ((2,) if not thorough else (2, 3)):
+        for alts in itertools.product(itertools.product(opts, repeat=2), repeat=ng):
+            text = "real n; predicate V(real x) { x == n; } predicate D() { false; }"
+            for gi, al in enumerate(alts):
+                ds = []
+                for ai, c in enumerate(al):
+                    ds.append("{ goal s%d%d = new %s; }" % (gi, ai, "D()" if c is None else "V(x: %d.0)" % c))
+                text += " predicate G%d() { %s }" % (gi, " or ".join(ds))
+            for gi in range(ng):
+                text += " goal g%d = new G%d();" % (gi, gi)
+            live = [[c for c in al if c is not None] for al in alts]
+            solvable = any(all(v in l for l in live) for v in (0, 1))
+            add(text, {}, [("goal", "g%d" % gi, "G%d" % gi, {}) for gi in range(ng)], solvable=solvable)
     # two goals that can unify with each other
     qt = pred_text("Q", *PREDS["Q"])
     for a, b in ((None, None), (lit(1), None), (lit(1), lit(1)), (lit(1), lit(2))):
